@@ -87,12 +87,12 @@ def gen_model(rnd, max_classes=4, toggles=True):
             s['savorize'] = toggle
     if toggles == 'commuting':
         # sweeteners and savorizers both run ancestors-first, so a hierarchy's hooks are mutual inverses only when they commute:
-        # no key renaming below a toggling base
-        for s in specs:
-            if s.get('sweeten') == [('op', ('u2d',))] and any(
-                    (loadcase.spec_of(specs, a) or {}).get('sweeten', [(None,)])[0][0] == 'if' for a in _ancestors(specs, s['name'])):
-                s.pop('sweeten')
-                s.pop('savorize', None)
+        # a model with a toggling class gets no key-renaming hooks at all
+        if any((s.get('sweeten') or [(None,)])[0][0] == 'if' for s in specs):
+            for s in specs:
+                if s.get('sweeten') == [('op', ('u2d',))]:
+                    s.pop('sweeten')
+                    s.pop('savorize', None)
     return specs
 
 
